@@ -48,6 +48,7 @@ type linkCfg struct {
 	D       int    `json:"fec_d"`
 	P       int    `json:"fec_p"`
 	UDPAddr bool   `json:"udp_addr"` // *net.UDPAddr endpoints (else string-compared addresses)
+	Batch   bool   `json:"batch_io,omitempty"` // the library's recvmmsg/sendmmsg loops run over the in-memory transport (hook H5)
 	// SrvFEC: the listener side uses (SD, SP) instead of (D, P) (C16: mismatch;
 	// 0/0 = FEC disabled at that end)
 	SrvFEC bool `json:"server_fec_differs,omitempty"`
@@ -285,6 +286,7 @@ func newSessWorld(t *testing.T, rec *vrec, desc any, link linkCfg, keySeed uint6
 	w := &sessWorld{rec: rec, desc: desc, link: link, t: t, flows: map[string]*wireFlow{}}
 	w.bubbleID = currentBubble()
 	w.hub = newSimHub(fate)
+	w.hub.batch = link.Batch
 	if sp := cipherByName(link.Cipher); sp != nil {
 		w.key = newRng(keySeed, 0x6b6579).bytes(sp.keyLen)
 	}
@@ -463,6 +465,14 @@ func (w *sessWorld) shutdown(order []string, leakCheck bool) {
 	w.mu.Lock()
 	for _, f := range w.flows {
 		f.tally(w.rec)
+	}
+	w.mu.Unlock()
+	w.mu.Lock()
+	for _, c := range w.conns {
+		w.rec.count("batch_io_write_calls", c.nBatchW.Load())
+		w.rec.count("batch_io_partial_writes", c.nBatchPartial.Load())
+		w.rec.count("batch_io_read_calls", c.nBatchR.Load())
+		w.rec.count("batch_io_reads_of_several_datagrams", c.nBatchRMulti.Load())
 	}
 	w.mu.Unlock()
 	w.rec.count("net_datagrams_sent", w.hub.nSent.Load())
@@ -818,6 +828,7 @@ type sessScenario struct {
 	CloseOrder []string   `json:"close_order,omitempty"`
 	PauseAt    int        `json:"reader_pause_after,omitempty"` // server-side reader pauses once after this many bytes
 	PauseMs    int        `json:"reader_pause_ms,omitempty"`
+	TxFaults   bool       `json:"-"` // the sender's socket swallows datagrams after FEC encoding: the wire need not show every segment (parity rebuilt them)
 	NoMsgCheck bool       `json:"-"`                            // MSS changes during the run: message lengths are not modelled
 	WPauseAt   int        `json:"writer_pause_after,omitempty"` // both writers pause once (client after this many bytes, server proportionally)
 	WPauseMs   int        `json:"writer_pause_ms,omitempty"`
@@ -834,6 +845,7 @@ func genSessScenario(rng *vrng, idx int64, part string) sessScenario {
 		sc.Link.D, sc.Link.P = pick(rng, []int{2, 3, 5, 10}), pick(rng, []int{1, 2, 3})
 	}
 	sc.Link.UDPAddr = rng.chance(0.5)
+	sc.Link.Batch = rng.chance(0.4)
 	sc.CfgC, sc.CfgS = randomSessCfg(rng), randomSessCfg(rng)
 	sc.CfgS.Stream = sc.CfgC.Stream
 	// the MTU must leave room for the headers
@@ -1029,11 +1041,11 @@ func runSessScenario(t *testing.T, rec *vrec, sc *sessScenario, rng *vrng, hooks
 	fs := w.flows[w.laddr.String()+">"+cconn.addr.String()]
 	w.mu.Unlock()
 	if fc != nil {
-		fc.finish(x1.written.Load(), res.completed)
+		fc.finish(x1.written.Load(), res.completed && !sc.TxFaults)
 		res.maxRunC = fc.longestRun()
 	}
 	if fs != nil {
-		fs.finish(x2.written.Load(), res.completed)
+		fs.finish(x2.written.Load(), res.completed && !sc.TxFaults)
 		res.maxRunS = fs.longestRun()
 	}
 	client.Close()
